@@ -64,7 +64,7 @@ def canon(v):
                                    else np.asarray(v, dtype=np.float32).view(np.uint32).tolist())
 
 
-def one_store(ctx, spec, work, tag, need_partitions=1):
+def one_store(ctx, spec, work, tag, need_partitions=1, light=False):
     from bio2zarr import vcf2zarr
     rng = ctx.rng
     path = vcfgen.materialise(spec, pathlib.Path(work) / tag, "vcf.gz+tbi", block_size=rng.choice([120, 300]))
@@ -90,8 +90,11 @@ def one_store(ctx, spec, work, tag, need_partitions=1):
         else:
             fname, _rest = field_of(rel)
             affected = [fname]
-        lengths = list(range(len(content))) if (exhaustive and len(content) <= 4000) else sorted(
-            {0, 1, len(content) // 2, len(content) - 1} | {rng.randrange(len(content)) for _ in range(6)})
+        if light:        # many fields of every type: every deletion, a few truncations per file
+            lengths = sorted({0, len(content) // 2, len(content) - 1})
+        else:
+            lengths = list(range(len(content))) if (exhaustive and len(content) <= 4000) else sorted(
+                {0, 1, len(content) // 2, len(content) - 1} | {rng.randrange(len(content)) for _ in range(6)})
         damages = [("deleted", None)] + [("truncated", k) for k in lengths]
         enc_done = 0
         for kind, k in damages:
@@ -153,7 +156,8 @@ def one_store(ctx, spec, work, tag, need_partitions=1):
                                     f"{how} did not raise (returned {what} values, {len(vals)} of {n})", inp, "error", what)
             # (2) encoding the store (sampled: it is slow)
             aimed = p.name == "chunk_index" and k in (16, 24, len(content) - 8, len(content) - 16, len(content) - 1)
-            if kind == "deleted" or aimed or enc_done < (3 if not ctx.thorough else 8) and rng.random() < 0.3:
+            if (kind == "deleted" and (not light or rng.random() < 0.3 or "FLG" in rel)) or aimed or \
+                    enc_done < (3 if not ctx.thorough else 8) and rng.random() < (0.05 if light else 0.3):
                 enc_done += kind != "deleted"
                 out = pathlib.Path(work) / f"{tag}.enc.zarr"
                 shutil.rmtree(out, ignore_errors=True)
@@ -219,6 +223,15 @@ def run(ctx):
                 spec = vcfgen.rich_file(ctx.rng, nrec=8, nsamples=2, ncontig=1)
                 if spec["records"]:
                     one_store(ctx, spec, work, f"d{k}")
+        if not ctx.thorough:
+            # every field type (Flag, String, Float, ... INFO and FORMAT) with a lighter damage set
+            for _try in range(20):
+                spec = vcfgen.rich_file(ctx.rng, nrec=8, nsamples=2, ncontig=1)
+                if len(spec["records"]) >= 6 and any(f["id"] == "FLG" for f in spec["infos"]) and \
+                        sum("FLG" in (r.get("info") or {}) for r in spec["records"]) >= 2:
+                    one_store(ctx, spec, work, "rich", light=True)
+                    ctx.count("rich_store_light")
+                    break
     finally:
         shutil.rmtree(work, ignore_errors=True)
 
